@@ -6,7 +6,7 @@ open CssVerif.Proto CssVerif.Mutators
 /-!
 Driver for C11. Requests:
 * `count`                         -> number of extracted scripts
-* `info <i>`                      -> `<name> disc=<0|1> guarded=<0|1> dirty=<f,f,..|-> fields=<n>`
+* `info <i>`                      -> `<name> disc=<0|1> guarded=<0|1> rosafe=<0|1> dirty=<f,f,..|-> fields=<n>`
 * `run <i> <ro 0|1> <fuel> <bits>`-> `<exit> trace=<m.m.m|-> dirty=<f,f|-> left=<n>`; bits = string of 0/1 (`-` = none)
 -/
 
@@ -34,7 +34,7 @@ def handle (line : String) : String :=
     | some n =>
       if h : n < scriptsArr.size then
         let sc := scriptsArr[n]
-        s!"{sc.name} disc={if Disciplined sc.fields sc.body then 1 else 0} guarded={if guardedFirst sc.body then 1 else 0} dirty={showList (dirtyOnExc sc.fields sc.body)} fields={sc.fields.length}"
+        s!"{sc.name} disc={if Disciplined sc.fields sc.body then 1 else 0} guarded={if guardedFirst sc.body then 1 else 0} rosafe={if ReadonlySafe sc.fields sc.body then 1 else 0} dirty={showList (dirtyOnExc sc.fields sc.body)} fields={sc.fields.length}"
       else "bad-op"
     | none => "bad-op"
   | ["run", i, ro, fuel, bits] =>
